@@ -17,6 +17,7 @@ global size_of usize == 8;
 //@item src/pwl/impl_infeasible_elim.rs | struct PerformanceCounter | no-debug
 
 //@include prelude/tol_spec.rs
+//@include prelude/cat_spec.rs
 //@include prelude/lp_oracle_tol_spec.rs
 //@include prelude/reach_spec.rs
 
@@ -129,15 +130,11 @@ pub proof fn lemma_hs_one(f: AffFunc, x: V)
 pub open spec fn parts_ok(ps: Seq<Polytope>, in_dim: usize) -> bool {
     forall|j: int| 0 <= j < ps.len() ==> (#[trigger] ps[j]).ok() && ps[j].mat.ncols() == in_dim
 }
-impl<A: Float> PolytopeG<A> {
-    // closure pipeline + ndarray::concatenate: panics when the column counts differ; ASSUMED: the intersection of the parts (bounded: bc poly)
-    #[verifier::external_body]
-    pub fn intersection_n(dim: usize, polys: &[Polytope]) -> (r: Polytope)
-        requires parts_ok(polys@, dim)
-        ensures r.ok(), r.mat.ncols() == dim,
-            forall|x: V| x.len() == dim ==> (#[trigger] r.sat(x) <==> forall|k: int| 0 <= k < polys@.len() ==> (#[trigger] polys@[k]).sat(x)),
-    { unimplemented!() }
+// contract proved on the real body in unit aff_algebra (ndarray::concatenate and the two view pipelines as trusted helpers)
+impl<D: Data<Elem = A>, A: Float + LinalgScalar> AffFuncBase<PolytopeT, D> {
+//@assumed units/aff_algebra.rs | intersection_n
 }
+
 pub open spec fn path_nodes(p: Seq<(usize, usize)>, node: usize) -> Seq<usize> { Seq::new(p.len() + 1, |i: int| if i < p.len() { p[i].0 } else { node }) }
 pub proof fn lemma_path_push<N, const K: usize>(a: Arena<N, K>, p: Seq<(usize, usize)>, parent: usize, label: usize, node: usize)
     requires path_ok(a, p, parent), a.dom().contains(parent), label < K, a[parent].children[label as int] == Some(node)
